@@ -24,7 +24,7 @@ def c16(cx):
              "checkpoint assertions are decided), R-9XXX (no path reaches an internal-error emission), R-CKPT "
              "(checkpoint typestate), R-FRAME-BALANCE (frame pops never empty the pending-statement stack). Decides these shape-visible necessary conditions of totality, not linearity.")
 def c01(cx):
-    lea_glue.apply(cx, ["R-PROGRESS", "R-PANIC", "R-9XXX", "R-CKPT", "R-FRAME-BALANCE"])
+    lea_glue.apply(cx, ["R-PROGRESS", "R-PANIC", "R-9XXX", "R-CKPT", "R-FRAME-BALANCE", "R-LOOKAHEAD-LINEAR"])
 
 
 @prop("C04", 'LEA rules R-NEWLINE (every consumed character that may be a line feed is followed by add_line() '
@@ -36,6 +36,7 @@ def c01(cx):
 def c04(cx):
     lea_glue.apply(cx, ["R-NEWLINE", "R-ADVANCE-EVIDENCE", "R-PRECONSUME", "R-OFFSET-PROVENANCE"])
     rules_struct.r_restore(cx, cx.facts("dev-none-stable"))
+    rules_bulk.run(cx)
 
 
 @prop("C06", 'LEA rules over every emission of every lex_token path (debug and release configuration): R-CHANNEL '
